@@ -123,7 +123,7 @@ def harness_names():
             if not fn.endswith(".rs"):
                 continue
             text = open(os.path.join(root, fn)).read()
-            for m in re.finditer(r"^\s*fn\s+((?:c\d\d|col|sl|dia|probe|st|shape|nest)_[a-z0-9_]+)\s*\(\s*\)", text, re.M):
+            for m in re.finditer(r"^\s*fn\s+((?:c\d\d|col|sl|dia|probe|st|shape|nest|pz)_[a-z0-9_]+)\s*\(\s*\)", text, re.M):
                 names[m.group(1)] = os.path.relpath(os.path.join(root, fn), hdir)
     return names
 
